@@ -26,8 +26,8 @@ def gen_session(rng, tier):
     ns = rng.choice([2, 3, 4, 6])
     nm = rng.choice([2, 3, 4])
     nx = rng.randint(1, ns)
-    dm = rng.choice([0.1, 0.5, 1.0])
-    m0 = rng.choice([2.5, 4.0, 5.0])
+    dm = rng.choice([0.1, 0.5, 1.0, 0.125, 0.05, 0.025, 1.0 / 3.0, 0.0625, 0.3])
+    m0 = rng.choice([2.5, 4.0, 5.0, 4.125, -1.0, 1.0 / 3.0, 5.005])
     nf = rng.choice([2, 2, 3])
     shifts = [0.0] + rng.sample([-0.5, -1.0, -1.5], nf - 1)      # in units of dm: other edges, same number of bins
     g = numpy.random.default_rng(rng.randrange(2 ** 32))
@@ -191,6 +191,12 @@ def _do_test(run, drv, pending, case, spec, st, mode, k, c, how, nsim, seed, tag
             # judged (the copy's edges are the current ones); the rest of the session is not.
             st.stop = True
             run.count("session-region-bound-as-copy")
+            reg = getattr(cat, "region", None)
+            if not (reg is not None and getattr(reg, "magnitudes", None) is not None and base._same_cells(reg, fore.region) and
+                    numpy.array_equal(numpy.asarray(reg.magnitudes, dtype=float), numpy.asarray(fore.magnitudes, dtype=float))):
+                # a copy is fine only if it bins exactly like the forecast's region: same cells, same order, same edges
+                run.oracle_failure(case, f"{label}: the catalog without space-magnitude region was bound to {reg!r}, which does not "
+                                         f"bin like the forecast's region (same cells, same order, same magnitude edges)")
         st.cat_has_region[c] = True
     run.count(f"session-test-{mode}-{how}")
     try:
